@@ -10,9 +10,19 @@ THEOREMS = [
      "text": "nothing is offered in any later state unless the workflow has meanwhile failed"},
     {"name": "C10_canceled_stays_canceled", "strength": "F",
      "text": "canceled is final: output rendering and later reports keep it canceled"},
-    {"name": "(tested, not proved) canceling while in flight, canceled as soon as the last action reports; not failed "
-             "by the unreachable-join check; output rendered from what was published",
-     "strength": "T", "text": "monitor c10 with cancel inserted before sampled/every event"},
+    {"name": "C10b_task_event_keeps_cancel / C10b_workflow_event_keeps_cancel / C10b_cancel_class_step (props/C10b.v)", "strength": "F",
+     "text": "NOT FAILED BY THE JOIN CHECK: any task report on a canceling/canceled workflow, an unhandled failure included, "
+             "keeps it canceling/canceled and the unreachable-join check returns nothing"},
+    {"name": "C10b_failed_only_by / C10b_canceling_to_failed_only_by_request / C10b_stays_canceled_unless_requested", "strength": "F",
+     "text": "from canceling/canceled a non-rerun API call leaves the workflow failed only if it is the request `failed` or a "
+             "handler recorded an evaluation failure (C11b); canceled stays canceled otherwise"},
+    {"name": "C10b_terminal_context / C10b_status_request_flags_nothing / C10b_cancel_request_renders_from_nothing", "strength": "R",
+     "text": "OUTPUT: the output is rendered against the fold over records flagged terminal; a status request flags none, so a "
+             "workflow completed by a cancel request with tasks still staged renders from the EMPTY context -- finding D5a as "
+             "an exact statement (Example d5a_cancel_dormant)"},
+    {"name": "(tested) canceling while in flight, canceled as soon as the last action reports", "strength": "T",
+     "text": "monitor c10 with cancel inserted before sampled/every event; C02b_paused_canceled_idle / "
+             "C02b_pausing_canceling_busy prove it for the formal protocol without with-items"},
 ]
 TRUSTED_BASE = common.TRUSTED_BASE_COMMON + [
     "fact F_wf_cancel_closed: vm_compute sweep over the canceling/canceled rows of the generated workflow table"]
